@@ -287,7 +287,7 @@ def check(repo: Repo, run: Run) -> None:
 
     # L9: the text arms of the integer constructors (decimal, 0x / -0x spellings) are range-checked and use the right
     # radix / prefix length (instances shared with C10.R1 / C10.R3)
-    run.borrow(repo, "C10", "C07.L9", lambda o: o["rule"] in ("C10.R1", "C10.R3") and any(k in o["key"] for k in ("str", "hex", "[other]")), 4)
+    run.borrow(repo, "C10", "C07.L9", lambda o: o["rule"] in ("C10.R1", "C10.R3") and any(k in o["key"] for k in ("str", "hex", "[other]", "radix")), 4)
     run.floor("C07.L8", check_absent_vs_falsy(repo, run, "C07.L8", ("IntType", "UintType", "DoubleType", "StringType", "BytesType")), 5)
     # L2 radix dispatch ----------------------------------------------------
     def find_expand(fname: str):
